@@ -531,7 +531,9 @@ theorem wfdb_removeNastyArc (k : Nat) (a : Acc) (lm : LMap) (ins del : Bool) (r 
   · split at h
     · cases h
     · split at h
-      · cases h; exact wfdb_setEnt k _ _ _ _ hw (Or.inl rfl)
+      · split at h
+        · cases h
+        · cases h; exact wfdb_setEnt k _ _ _ _ hw (Or.inl rfl)
       · cases h
 
 /-- a shift successor sits in the column given by its last digit. -/
